@@ -58,10 +58,19 @@ var c01Nul = []c01Ident{{"a\x00b", "c"}, {"a", "b\x00c"}, {"a\x00", ""}, {"a", "
 // c01Numeric: keys that look like numbers but are not in canonical form (a column with numeric affinity would rewrite them)
 var c01Numeric = []c01Ident{{"a", "01"}, {"a", "1"}, {"a", "-0"}, {"a", "1.0"}, {"a", "1e0"}, {"a", " 1"}}
 
+// c01Twins: pairs of different identities whose type+key concatenation is the same
+var c01Twins = [][]c01Ident{{{"ab", "c"}, {"a", "bc"}}, {{"a", "b0"}, {"ab", "0"}}, {{"a0", "1"}, {"a", "01"}}}
+
 func c01BodyI(edge bool, maxN int, c01Idents []c01Ident, samePayload ...bool) mc.Body {
 	same := len(samePayload) > 0 && samePayload[0]
+	// twin mode (maxN < 0): exactly the two given identities, one timestamp, one payload — two different points
+	// whose every field but the split between type and key is the same
+	twin := maxN < 0
 	return func(x *mc.X) mc.Outcome {
-		n := 1 + x.Choose(maxN, "npoints")
+		n := 2
+		if !twin {
+			n = 1 + x.Choose(maxN, "npoints")
+		}
 		if same {
 			n = 3
 		}
@@ -97,6 +106,9 @@ func c01BodyI(edge bool, maxN int, c01Idents []c01Ident, samePayload ...bool) mc
 			j := i // index whose payload point i carries
 			if same {
 				j = [][]int{{1, 2, 1}, {1, 1, 2}, {2, 1, 1}, {1, 1, 1}}[pattern][i]
+			}
+			if twin {
+				id, ts, j = c01Idents[i], 5, 1
 			}
 			pts[i] = data.Point{Type: id.typ, Key: id.key, Time: time.Unix(0, ts), Value: c01Vals[j], Text: c01Texts[j], Tombstone: c01Tombs[j], Origin: c01Origin[j], Data: c01Data[j]}
 		}
@@ -293,6 +305,11 @@ func checkC01(r *mc.Report, thorough bool) {
 	r.Explore(mc.Config{Name: "edge-points-nul-bytes-n2", Rule: "the same for edge points", SelfCheckEvery: 5000}, c01BodyI(true, 2, c01Nul))
 	r.Explore(mc.Config{Name: "node-points-numeric-looking-keys-n2", Rule: "two points over the identities (a,01), (a,1), (a,-0), (a,1.0), (a,1e0), (a,\" 1\"): keys are strings, whatever they look like", SelfCheckEvery: 5000}, c01BodyI(false, 2, c01Numeric))
 	r.Explore(mc.Config{Name: "edge-points-numeric-looking-keys-n2", Rule: "the same for edge points", SelfCheckEvery: 5000}, c01BodyI(true, 2, c01Numeric))
+	for ti, tw := range c01Twins {
+		name := fmt.Sprintf("twins-%d", ti)
+		r.Explore(mc.Config{Name: "node-points-" + name, Rule: fmt.Sprintf("the two different identities %q and %q with ONE timestamp, value, text, tombstone count and origin (only the split between type and key differs): both orders, one or two batches, re-deliveries", tw[0], tw[1])}, c01BodyI(false, -2, tw))
+		r.Explore(mc.Config{Name: "edge-points-" + name, Rule: "the same for edge points"}, c01BodyI(true, -2, tw))
+	}
 	sameRule := "three points of one identity of which two (any two) or all three carry the same value, text, data, tombstone and origin and differ only in their time; timestamps rising / falling with the index; all permutations x all compositions into batches x one re-delivery; read-back (time included) checked after every delivery"
 	r.Explore(mc.Config{Name: "node-points-same-payload", Rule: sameRule}, c01Body(false, 3, true))
 	r.Explore(mc.Config{Name: "edge-points-same-payload", Rule: sameRule}, c01Body(true, 3, true))
@@ -313,6 +330,10 @@ func init() {
 	bodies["C01/edge-points-nul-bytes-n2"] = c01BodyI(true, 2, c01Nul)
 	bodies["C01/node-points-numeric-looking-keys-n2"] = c01BodyI(false, 2, c01Numeric)
 	bodies["C01/edge-points-numeric-looking-keys-n2"] = c01BodyI(true, 2, c01Numeric)
+	for ti, tw := range c01Twins {
+		bodies[fmt.Sprintf("C01/node-points-twins-%d", ti)] = c01BodyI(false, -2, tw)
+		bodies[fmt.Sprintf("C01/edge-points-twins-%d", ti)] = c01BodyI(true, -2, tw)
+	}
 	bodies["C01/node-points-same-payload"] = c01Body(false, 3, true)
 	bodies["C01/edge-points-same-payload"] = c01Body(true, 3, true)
 }
